@@ -307,7 +307,22 @@ def d2_factories(ctx):
                 ctx.undecided(rule, fs, kcall, construct=f"{fac}:{pe}",
                               detail=f"parameter {pe}/{pk} not found in callee signatures")
                 continue
-            se, sk = _canon_fs(src(ae)), _canon_fs(src(ak))
+            # plain aliases of the factory (`fs = functionSpace`) are resolved before comparing
+            al = {}
+            for st_ in fs.node.body:
+                if isinstance(st_, ast.Assign) and len(st_.targets) == 1 and isinstance(st_.targets[0], ast.Name) and isinstance(st_.value, ast.Name):
+                    nm_ = st_.targets[0].id
+                    ndef = sum(1 for w_ in ast.walk(fs.node) if (isinstance(w_, ast.Name) and isinstance(w_.ctx, ast.Store) and w_.id == nm_)
+                               or (isinstance(w_, ast.FunctionDef) and w_.name == nm_))
+                    if ndef == 1:
+                        al[nm_] = st_.value.id
+
+            def _unalias(e_):
+                t_ = src(e_)
+                if isinstance(e_, ast.Name) and e_.id in al:
+                    t_ = al[e_.id]
+                return _canon_fs(t_)
+            se, sk = _unalias(ae), _unalias(ak)
             # closure parameters are compared by position in their own closure
             if isinstance(ae, ast.Name) and ae.id in ei.params() and isinstance(ak, ast.Name) and ak.id in ki.params():
                 ok = ei.params().index(ae.id) == ki.params().index(ak.id)
